@@ -1,7 +1,367 @@
-//! C09 operations (op names start with `c09.`)
-#[allow(unused_imports)]
+//! C09 operations (op names start with `c09.`): pow, multi-exponentiation, lincomb on Montgomery forms.
+//!
+//!   c09.pow    <kind> <form> <n> <m> <ne> <base> <exp>        kind ∈ dyn const boxed; form ∈ m (inherent) t (Pow trait)
+//!   c09.powb   <kind> <form> <n> <m> <ne> <base> <exp> <k>    pow_bounded_exp; form ∈ m | t (PowBoundedExp trait)
+//!   c09.multi  <kind> <form> <n> <m> <ne> <b,e;b,e;…|->        MultiExponentiate; form ∈ arr (1..=3 terms) | slice
+//!   c09.multib <kind> <form> <n> <m> <ne> <k> <b,e;…|->        MultiExponentiateBoundedExp
+//!   c09.lincomb <kind> <n> <m> <a,b;a,b;…|->                  lincomb_vartime
+//!
+//! Output: `<retrieve()> <as_montgomery()>` (boxed: both as `<nlimbs>:<hex>`).
+//! `kind = const` needs `(n, m)` from the `const_moduli!` table below (tools/gen/c09.py carries the same table).
 use crate::util::*;
+use core::marker::PhantomData;
+use crypto_bigint::modular::{
+    BoxedMontyForm, BoxedMontyParams, ConstMontyForm, ConstMontyParams, MontyForm, MontyParams,
+};
+use crypto_bigint::{
+    BoxedUint, MultiExponentiate, MultiExponentiateBoundedExp, Odd, Pow, PowBoundedExp, Uint, impl_modulus,
+};
 
-pub fn dispatch(_op: &str, _a: &[&str]) -> Option<String> {
-    None
+// ------------------------------------------------------------------ the two fixed-width kinds
+
+/// what the ops need from `MontyForm<N>` / `ConstMontyForm<P, N>` beyond the crate's traits
+/// (inherent methods cannot be reached through a trait bound).
+trait Kind<const N: usize> {
+    type F: Copy;
+    fn mk(&self, v: &Uint<N>) -> Self::F;
+    fn show(f: &Self::F) -> String;
+    fn pow_inh<const R: usize>(f: &Self::F, e: &Uint<R>) -> Self::F;
+    fn powb_inh<const R: usize>(f: &Self::F, e: &Uint<R>, k: u32) -> Self::F;
+    fn lincomb(terms: &[(Self::F, Self::F)]) -> Self::F;
+}
+
+struct Dyn<const N: usize>(MontyParams<N>);
+impl<const N: usize> Kind<N> for Dyn<N> {
+    type F = MontyForm<N>;
+    fn mk(&self, v: &Uint<N>) -> Self::F {
+        MontyForm::new(v, self.0)
+    }
+    fn show(f: &Self::F) -> String {
+        format!("{} {}", uhex(&f.retrieve()), uhex(f.as_montgomery()))
+    }
+    fn pow_inh<const R: usize>(f: &Self::F, e: &Uint<R>) -> Self::F {
+        f.pow(e)
+    }
+    fn powb_inh<const R: usize>(f: &Self::F, e: &Uint<R>, k: u32) -> Self::F {
+        f.pow_bounded_exp(e, k)
+    }
+    fn lincomb(terms: &[(Self::F, Self::F)]) -> Self::F {
+        let refs: Vec<(&MontyForm<N>, &MontyForm<N>)> = terms.iter().map(|(a, b)| (a, b)).collect();
+        MontyForm::lincomb_vartime(&refs)
+    }
+}
+
+struct Cst<P, const N: usize>(PhantomData<P>);
+impl<P: ConstMontyParams<N>, const N: usize> Kind<N> for Cst<P, N> {
+    type F = ConstMontyForm<P, N>;
+    fn mk(&self, v: &Uint<N>) -> Self::F {
+        ConstMontyForm::new(v)
+    }
+    fn show(f: &Self::F) -> String {
+        format!("{} {}", uhex(&f.retrieve()), uhex(f.as_montgomery()))
+    }
+    fn pow_inh<const R: usize>(f: &Self::F, e: &Uint<R>) -> Self::F {
+        f.pow(e)
+    }
+    fn powb_inh<const R: usize>(f: &Self::F, e: &Uint<R>, k: u32) -> Self::F {
+        f.pow_bounded_exp(e, k)
+    }
+    fn lincomb(terms: &[(Self::F, Self::F)]) -> Self::F {
+        ConstMontyForm::lincomb_vartime(terms)
+    }
+}
+
+fn parse_pairs<const A: usize, const C: usize>(s: &str) -> Option<Vec<(Uint<A>, Uint<C>)>> {
+    if s == "-" {
+        return Some(Vec::new());
+    }
+    s.split(';')
+        .map(|p| {
+            let (a, b) = p.split_once(',')?;
+            Some((uint::<A>(a)?, uint::<C>(b)?))
+        })
+        .collect()
+}
+
+/// exponentiation ops for base width `N`, exponent width `R`; `a` = args after `<kind> <form> <n> <m> <ne>`.
+fn exp_ops<const N: usize, const R: usize, K: Kind<N>>(kd: &K, op: &str, form: &str, a: &[&str]) -> Option<String>
+where
+    K::F: Pow<Uint<R>>
+        + PowBoundedExp<Uint<R>>
+        + MultiExponentiateBoundedExp<Uint<R>, [(K::F, Uint<R>); 1]>
+        + MultiExponentiateBoundedExp<Uint<R>, [(K::F, Uint<R>); 2]>
+        + MultiExponentiateBoundedExp<Uint<R>, [(K::F, Uint<R>); 3]>
+        + MultiExponentiateBoundedExp<Uint<R>, [(K::F, Uint<R>)]>,
+{
+    let bad = Some(BAD.to_string());
+    match (op, a.len()) {
+        ("c09.pow", 2) => {
+            let (Some(b), Some(e)) = (uint::<N>(a[0]), uint::<R>(a[1])) else { return bad };
+            let x = kd.mk(&b);
+            let r = match form {
+                "m" => K::pow_inh(&x, &e),
+                "t" => Pow::pow(&x, &e),
+                _ => return bad,
+            };
+            Some(K::show(&r))
+        }
+        ("c09.powb", 3) => {
+            let (Some(b), Some(e), Some(k)) = (uint::<N>(a[0]), uint::<R>(a[1]), dec32(a[2])) else { return bad };
+            let x = kd.mk(&b);
+            let r = match form {
+                "m" => K::powb_inh(&x, &e, k),
+                "t" => PowBoundedExp::pow_bounded_exp(&x, &e, k),
+                _ => return bad,
+            };
+            Some(K::show(&r))
+        }
+        ("c09.multi", 1) | ("c09.multib", 2) => {
+            let bounded = op == "c09.multib";
+            let k = if bounded {
+                let Some(k) = dec32(a[0]) else { return bad };
+                k
+            } else {
+                0
+            };
+            let Some(pairs) = parse_pairs::<N, R>(a[a.len() - 1]) else { return bad };
+            let bes: Vec<(K::F, Uint<R>)> = pairs.iter().map(|(b, e)| (kd.mk(b), *e)).collect();
+            let r = match (form, bes.len()) {
+                ("slice", _) => {
+                    if bounded {
+                        <K::F as MultiExponentiateBoundedExp<Uint<R>, [(K::F, Uint<R>)]>>::multi_exponentiate_bounded_exp(&bes[..], k)
+                    } else {
+                        <K::F as MultiExponentiate<Uint<R>, [(K::F, Uint<R>)]>>::multi_exponentiate(&bes[..])
+                    }
+                }
+                ("arr", 1) => {
+                    let arr = [bes[0]];
+                    if bounded {
+                        <K::F as MultiExponentiateBoundedExp<Uint<R>, [(K::F, Uint<R>); 1]>>::multi_exponentiate_bounded_exp(&arr, k)
+                    } else {
+                        <K::F as MultiExponentiate<Uint<R>, [(K::F, Uint<R>); 1]>>::multi_exponentiate(&arr)
+                    }
+                }
+                ("arr", 2) => {
+                    let arr = [bes[0], bes[1]];
+                    if bounded {
+                        <K::F as MultiExponentiateBoundedExp<Uint<R>, [(K::F, Uint<R>); 2]>>::multi_exponentiate_bounded_exp(&arr, k)
+                    } else {
+                        <K::F as MultiExponentiate<Uint<R>, [(K::F, Uint<R>); 2]>>::multi_exponentiate(&arr)
+                    }
+                }
+                ("arr", 3) => {
+                    let arr = [bes[0], bes[1], bes[2]];
+                    if bounded {
+                        <K::F as MultiExponentiateBoundedExp<Uint<R>, [(K::F, Uint<R>); 3]>>::multi_exponentiate_bounded_exp(&arr, k)
+                    } else {
+                        <K::F as MultiExponentiate<Uint<R>, [(K::F, Uint<R>); 3]>>::multi_exponentiate(&arr)
+                    }
+                }
+                _ => return bad,
+            };
+            Some(K::show(&r))
+        }
+        _ => bad,
+    }
+}
+
+fn lincomb_op<const N: usize, K: Kind<N>>(kd: &K, s: &str) -> Option<String> {
+    let Some(pairs) = parse_pairs::<N, N>(s) else { return Some(BAD.to_string()) };
+    let terms: Vec<(K::F, K::F)> = pairs.iter().map(|(a, b)| (kd.mk(a), kd.mk(b))).collect();
+    Some(K::show(&K::lincomb(&terms)))
+}
+
+/// exponent widths per base width (narrower, equal, wider); tools/gen/c09.py: `EXP_WIDTHS`
+macro_rules! with_r {
+    ($n:literal, $ne:expr, $K:ty, $kd:expr, $op:expr, $form:expr, $a:expr, [$($r:literal),*]) => {
+        match $ne {
+            $( $r => exp_ops::<$n, $r, $K>($kd, $op, $form, $a), )*
+            _ => Some("unsupported-width".to_string()),
+        }
+    };
+}
+
+fn fixed_ops<const N: usize, K: Kind<N>>(kd: &K, op: &str, a: &[&str]) -> Option<String>
+where
+    K: KindAll<N>,
+{
+    K::run(kd, op, a)
+}
+
+/// per-width instantiation of the exponent-width table (const generics cannot be computed from `N`)
+trait KindAll<const N: usize>: Kind<N> + Sized {
+    fn run(kd: &Self, op: &str, a: &[&str]) -> Option<String>;
+}
+
+macro_rules! impl_kind_all {
+    ($n:literal, [$($r:literal),*]) => {
+        impl KindAll<$n> for Dyn<$n> {
+            fn run(kd: &Self, op: &str, a: &[&str]) -> Option<String> { run_all!($n, Dyn<$n>, kd, op, a, [$($r),*]) }
+        }
+        impl<P: ConstMontyParams<$n>> KindAll<$n> for Cst<P, $n> {
+            fn run(kd: &Self, op: &str, a: &[&str]) -> Option<String> { run_all!($n, Cst<P, $n>, kd, op, a, [$($r),*]) }
+        }
+    };
+}
+
+/// `a` = all args of the line: `<kind> [<form>] <n> <m> [<ne>] …`
+macro_rules! run_all {
+    ($n:literal, $K:ty, $kd:expr, $op:expr, $a:expr, [$($r:literal),*]) => {{
+        let a: &[&str] = $a;
+        if $op == "c09.lincomb" {
+            if a.len() != 4 { return Some(BAD.to_string()); }
+            return lincomb_op::<$n, $K>($kd, a[3]);
+        }
+        if a.len() < 6 { return Some(BAD.to_string()); }
+        let Some(ne) = dec(a[4]) else { return Some(BAD.to_string()) };
+        with_r!($n, ne, $K, $kd, $op, a[1], &a[5..], [$($r),*])
+    }};
+}
+
+impl_kind_all!(1, [1, 2, 4]);
+impl_kind_all!(2, [1, 2, 4]);
+impl_kind_all!(4, [1, 2, 4, 8]);
+impl_kind_all!(8, [1, 4, 8, 16]);
+impl_kind_all!(16, [1, 8, 16, 32]);
+
+// ------------------------------------------------------------------ compile-time moduli (impl_modulus!)
+
+trait ConstVisitor {
+    fn visit<P: ConstMontyParams<N>, const N: usize>(self) -> Option<String>
+    where
+        Cst<P, N>: KindAll<N>;
+}
+
+fn norm_hex(s: &str) -> String {
+    let t = s.trim_start_matches('0').to_ascii_lowercase();
+    if t.is_empty() { "0".to_string() } else { t }
+}
+
+macro_rules! const_moduli {
+    ($( ($name:ident, $ty:ty, $n:expr, $hex:expr) ),* $(,)?) => {
+        $( impl_modulus!($name, $ty, $hex); )*
+        fn with_const_modulus<V: ConstVisitor>(nlimbs: usize, mhex: &str, v: V) -> Option<String> {
+            let key = (nlimbs, norm_hex(mhex));
+            $( if key == ($n as usize, norm_hex($hex)) { return v.visit::<$name, { $n }>(); } )*
+            Some(BAD.to_string())
+        }
+    };
+}
+
+use crypto_bigint::{U64, U128, U256, U512, U1024};
+const_moduli! {
+    (C1One, U64, 1, "0000000000000001"),
+    (C1Three, U64, 1, "0000000000000003"),
+    (C1Max, U64, 1, "ffffffffffffffff"),
+    (C1Third, U64, 1, "5555555555555555"),
+    (C1Quarter, U64, 1, "3fffffffffffffff"),
+    (C1Small, U64, 1, "00000000000000f1"),
+    (C2Top, U128, 2, "ffffffffffffffffffffffffffffffc5"),
+    (C2Zhl, U128, 2, "0000000000000000ffffffffffffffc5"),
+    (C2Lz3, U128, 2, "1fffffffffffffffffffffffffffffff"),
+    (C4P256n, U256, 4, "ffffffff00000000ffffffffffffffffbce6faada7179e84f3b9cac2fc632551"),
+    (C4Lz1, U256, 4, "7fffffff00000000ffffffffffffffffbce6faada7179e84f3b9cac2fc632551"),
+    (C4Lz4, U256, 4, "0fffffff00000000ffffffffffffffffbce6faada7179e84f3b9cac2fc632551"),
+    (C8Quarter, U512, 8, "3fffffffffffffffffffffffffffffffffffffffffffffffffffffffffffffffffffffffffffffffffffffffffffffffffffffffffffffffffffffffffffffff"),
+    (C16Half, U1024, 16, "8000000000000000000000000000000000000000000000000000000000000000000000000000000000000000000000000000000000000000000000000000000000000000000000000000000000000000000000000000000000000000000000000000000000000000000000000000000000000000000000000000000000000001"),
+}
+
+struct ConstRun<'a> {
+    op: &'a str,
+    a: &'a [&'a str],
+}
+impl ConstVisitor for ConstRun<'_> {
+    fn visit<P: ConstMontyParams<N>, const N: usize>(self) -> Option<String>
+    where
+        Cst<P, N>: KindAll<N>,
+    {
+        fixed_ops::<N, Cst<P, N>>(&Cst(PhantomData), self.op, self.a)
+    }
+}
+
+// ------------------------------------------------------------------ runtime moduli
+
+fn dyn_ops<const N: usize>(op: &str, a: &[&str], mhex: &str) -> Option<String>
+where
+    Dyn<N>: KindAll<N>,
+{
+    let Some(m) = uint::<N>(mhex) else { return Some(BAD.to_string()) };
+    let Some(m) = Option::<Odd<Uint<N>>>::from(Odd::new(m)) else { return Some(BAD.to_string()) };
+    fixed_ops::<N, Dyn<N>>(&Dyn(MontyParams::new_vartime(m)), op, a)
+}
+
+// ------------------------------------------------------------------ boxed
+
+fn boxed_ops(op: &str, a: &[&str]) -> Option<String> {
+    let bad = Some(BAD.to_string());
+    let lincomb = op == "c09.lincomb";
+    let (ni, mi) = if lincomb { (1, 2) } else { (2, 3) };
+    if a.len() <= mi {
+        return bad;
+    }
+    let Some(n) = dec(a[ni]) else { return bad };
+    let Some(m) = boxed(a[mi], n) else { return bad };
+    let Some(m) = Option::<Odd<BoxedUint>>::from(Odd::new(m)) else { return bad };
+    let params = BoxedMontyParams::new(m);
+    let show = |f: &BoxedMontyForm| format!("{} {}", bhexlen(&f.retrieve()), bhexlen(f.as_montgomery()));
+    let mk = |s: &str| -> Option<BoxedMontyForm> { Some(BoxedMontyForm::new(boxed(s, n)?, params.clone())) };
+    match (op, a.len()) {
+        ("c09.lincomb", 4) => {
+            let mut terms = Vec::new();
+            if a[3] != "-" {
+                for p in a[3].split(';') {
+                    let Some((x, y)) = p.split_once(',') else { return bad };
+                    let (Some(x), Some(y)) = (mk(x), mk(y)) else { return bad };
+                    terms.push((x, y));
+                }
+            }
+            let refs: Vec<(&BoxedMontyForm, &BoxedMontyForm)> = terms.iter().map(|(x, y)| (x, y)).collect();
+            Some(show(&BoxedMontyForm::lincomb_vartime(&refs)))
+        }
+        ("c09.pow", 7) if a[1] == "m" => {
+            let Some(ne) = dec(a[4]) else { return bad };
+            let (Some(x), Some(e)) = (mk(a[5]), boxed(a[6], ne)) else { return bad };
+            Some(show(&x.pow(&e)))
+        }
+        ("c09.powb", 8) => {
+            let Some(ne) = dec(a[4]) else { return bad };
+            let (Some(x), Some(e), Some(k)) = (mk(a[5]), boxed(a[6], ne), dec32(a[7])) else { return bad };
+            let r = match a[1] {
+                "m" => x.pow_bounded_exp(&e, k),
+                "t" => PowBoundedExp::pow_bounded_exp(&x, &e, k),
+                _ => return bad,
+            };
+            Some(show(&r))
+        }
+        _ => bad,
+    }
+}
+
+pub fn dispatch(op: &str, a: &[&str]) -> Option<String> {
+    if !matches!(op, "c09.pow" | "c09.powb" | "c09.multi" | "c09.multib" | "c09.lincomb") {
+        return None;
+    }
+    let bad = Some(BAD.to_string());
+    if a.len() < 4 {
+        return bad;
+    }
+    let kind = a[0];
+    if kind == "boxed" {
+        return boxed_ops(op, a);
+    }
+    let (ni, mi) = if op == "c09.lincomb" { (1, 2) } else { (2, 3) };
+    let Some(n) = dec(a[ni]) else { return bad };
+    let mhex = a[mi];
+    match kind {
+        "dyn" => match n {
+            1 => dyn_ops::<1>(op, a, mhex),
+            2 => dyn_ops::<2>(op, a, mhex),
+            4 => dyn_ops::<4>(op, a, mhex),
+            8 => dyn_ops::<8>(op, a, mhex),
+            16 => dyn_ops::<16>(op, a, mhex),
+            _ => Some("unsupported-width".to_string()),
+        },
+        "const" => with_const_modulus(n, mhex, ConstRun { op, a }),
+        _ => bad,
+    }
 }
